@@ -39,10 +39,12 @@ def uniform(events: Sequence[Mapping[str, Any]], defaults: Mapping[str, Any]) ->
 
 
 def _find_rejected(out: str) -> dict[int, int]:
-    key = '<<"REJECTED"'
-    i = out.find(key)
-    if i < 0:
+    import re
+
+    m = re.search(r'<<\s*"REJECTED"', out)
+    if m is None:
         return {}
+    i = m.start()
     # bracket matching
     depth = 0
     j = i
@@ -70,16 +72,18 @@ def validate(
     traces: Sequence[Mapping[str, Any]],
     *,
     cfg_text: str | None = None,
-    timeout: float = 900,
+    timeout: float = 240,
     chunk: int = 4000,
     jvm_props: Sequence[str] = (),
-    heap: str = "8g",
+    heap: str = "2g",
+    parallel: int = 1,
 ) -> BatchResult:
     """Validate traces against spec/<module>.tla (which must read IOEnv.TRACE_FILE)."""
     total = BatchResult(len(traces), sum(len(t["events"]) for t in traces), {}, tlc.TLCResult(ok=True))
     if cfg_text is None:
         cfg_text = "SPECIFICATION Spec\nCONSTRAINT Constr\nPOSTCONDITION Post\nCHECK_DEADLOCK FALSE\n"
-    for base in range(0, len(traces), chunk):
+
+    def one(base: int) -> tuple[int, dict[int, int], tlc.TLCResult]:
         part = list(traces[base : base + chunk])
         with tempfile.TemporaryDirectory(prefix="vf_tr_") as d:
             tf = os.path.join(d, "traces.json")
@@ -99,14 +103,28 @@ def validate(
             if tid is None:
                 raise tlc.TLCError(f"trace validation of {module} failed without a trace id:\n{res.stdout[-3000:]}")
             lpos = res.trace[-1]["state"].get("l", 1) if res.trace else 1
-            rej = {int(tid) - 1: int(lpos)}
+            rej = {int(tid) - 1: -int(lpos)}  # negative: an invariant failed in the state reached after event l-1
+            res.stdout += f"\nINVARIANT-VIOLATION {res.violation}"
         if not res.ok and not rej:
             raise tlc.TLCError(f"trace validation of {module}: postcondition false but no REJECTED record:\n{res.stdout[-3000:]}")
+        return base, rej, res
+
+    bases = list(range(0, len(traces), chunk))
+    if parallel > 1 and len(bases) > 1:
+        from concurrent.futures import ThreadPoolExecutor
+
+        with ThreadPoolExecutor(max_workers=parallel) as ex:
+            results = list(ex.map(one, bases))
+    else:
+        results = [one(b) for b in bases]
+    for base, rej, res in results:
         for k, v in rej.items():
             total.rejected[base + k] = v
         total.tlc.generated += res.generated
         total.tlc.distinct += res.distinct
         total.tlc.wall_s += res.wall_s
         total.tlc.stdout = res.stdout
+        if res.violation and res.violation != "Postcondition false":
+            total.tlc.violation = res.violation
     total.tlc.ok = not total.rejected
     return total
